@@ -92,8 +92,20 @@ fn child_raw(args: &Args) {
                     }
                 });
             }
-            sc.spawn(|| {
+            // plus one emitter WITHOUT a scope of its own: it takes the global-default path while
+            // (in the first scenario of the process) the global default is being installed
+            let free = sites[0].clone();
+            sc.spawn(move || {
+                for (k, cs) in free.iter().enumerate() {
+                    let _ = (cs.emit)(100 + k as u64);
+                    std::thread::yield_now();
+                }
+            });
+            sc.spawn(move || {
                 for k in 0..rounds {
+                    if sidx == 0 && k == 1 {
+                        let _ = tracing_core::dispatch::set_global_default(Dispatch::new(SharedCounting(std::sync::Arc::new(Counting { hint: None, events: AtomicU64::new(0), registered: AtomicU64::new(0) }))));
+                    }
                     let d = Dispatch::new(SharedCounting(std::sync::Arc::new(Counting { hint: hints[k % 4], events: AtomicU64::new(0), registered: AtomicU64::new(0) })));
                     std::thread::yield_now();
                     if k % 2 == 0 {
